@@ -41,7 +41,7 @@ def strip_punct_stream(ctx):
     from eyecite.utils import strip_punct
 
     th = ctx.tier == "thorough"
-    maxlen = 4 if th else 3
+    maxlen = 5 if th else 3
     strings = ["".join(t) for L in range(maxlen + 1) for t in itertools.product(SP_ALPHA, repeat=L)]
     ctx.exhaustive["strip-punct: strings<=%d over %d punctuation/space/letter characters" % (maxlen, len(SP_ALPHA))] = len(strings)
     rng = ctx.rng
